@@ -171,7 +171,7 @@ def run(ctx: Ctx) -> Outcome:
                                            "oracle", nontrivial, label="guard-off:")
     engcheck.report(outg, resultsg, "C04", oracle)
     out.merge(outg)
-    # the `.shape` setter (known to be false of the unchanged code once an in-place update follows)
+    # the `.shape` setter followed by in-place updates (not modelled in Lean: compared with ndarrays directly)
     for v in shape_setter_cases(ctx):
         if v.signature not in seen:
             seen.add(v.signature)
@@ -560,8 +560,8 @@ MANIFEST = {
             "refinement 'heap after an in-place update = NumPy buffer write' is proved for a tensor without live views "
             "(inplace_on_owner_refines_numpy_general) and for a base with one live view updated through that view "
             "(inplace_through_view_refines_numpy); for a general view forest (several views, views of views, where= masks) it is validated by correspondence + NumPy twin on "
-            "every run, not proved (named gap inplace_refines_numpy_forest). `.shape =` followed by in-place updates is false of the unchanged "
-            "code (two known findings); advanced-index assignment whose value aliases the target is excluded "
+            "every run, not proved (named gap inplace_refines_numpy_forest). `.shape =` is not modelled in Lean: shape/view/in-place sequences are compared with ndarrays directly "
+            "(the defects found there are repaired); advanced-index assignment whose value aliases the target is excluded "
             "(NumPy's own result is order-dependent there).",
 }
 
